@@ -16,3 +16,40 @@ def thorough_extras(R, pid):
                 R.machinery.append("Lean lemma L1 does not check: " + (r.stdout + r.stderr)[-300:])
         except Exception as ex:  # noqa
             R.notes.append(f"Lean re-check skipped: {ex}")
+
+
+# seeded mutants (tools/mutants.py) that each property's VC part has to catch; harmless ones must stay green
+MUTANTS_FOR = {
+    "C16": ["m10", "m28", "m44", "m45", "m46", "m48", "h60"], "C03": ["m10", "m11b", "m7", "m11"], "C04": ["m12", "m13", "m14", "m15"],
+    "C02": ["m6", "m7", "m4"], "C01": ["m2", "m4"], "C05": ["m2"], "C06": ["m19", "m6"], "C07": ["m21", "m23"], "C08": ["m25"],
+    "C10": ["m28", "m31"], "C11": ["m31"], "C12": ["m6", "m35"], "C15": ["m41"], "C17": ["m46", "m48"],
+}
+
+
+def mutant_selftest(R, pid):
+    ids = MUTANTS_FOR.get(pid)
+    if not ids:
+        return
+    try:
+        r = subprocess.run([sys.executable, os.path.join(VERIF, "tools", "mutants.py")] + ids, capture_output=True, text=True, timeout=3000)
+    except Exception as ex:  # noqa
+        R.notes.append(f"mutant self-test skipped: {ex}")
+        return
+    ok = bad = 0
+    for line in r.stdout.splitlines():
+        parts = line.split(" ", 2)
+        if len(parts) >= 2 and parts[0] in ids:
+            if parts[1] == "ok":
+                ok += 1
+            else:
+                bad += 1
+                R.machinery.append(f"mutant self-test: {line[:200]}")
+    R.extra["mutant_selftest"] = {"mutants": ids, "as_expected": ok, "unexpected": bad}
+
+
+_orig_thorough = thorough_extras
+
+
+def thorough_extras(R, pid):  # noqa: F811
+    _orig_thorough(R, pid)
+    mutant_selftest(R, pid)
